@@ -931,6 +931,8 @@ class FnLower:
             l, r = c(e[2]), c(e[3]); return None if l is None or r is None else f"{l} {e[1]} {r}"
         if k == "index":
             l, r = c(e[1]), c(e[2]); return None if l is None or r is None else f"{l}[{r}]"
+        if k == "range" and e[1] is not None and e[2] is not None and not e[3]:      # (task S) `x[lo..hi]` inside a raw-pointer alias expression
+            l, r = c(e[1]), c(e[2]); return None if l is None or r is None else f"{l}..{r}"
         return None
 
     def abstracted(self, e, env):
@@ -2449,8 +2451,9 @@ class Skeleton:
             istail = len(s) == 4 and s[3] == "tail"
             if s[0] == "let" and isinstance(s[1], str) and s[4] is not None:
                 c = self.canon(strip_paren(s[4]))
-                if c is not None and c in self.sk.get("handles", []):
-                    self.used.add(c); self.env[s[1]] = Var("handle", c, rust=s[1]); continue
+                hk = self.lookup("handles", c)[0]                            # (task S) handle entries may contain `$name` wildcards
+                if hk is not None:
+                    self.used.add(hk); self.env[s[1]] = Var("handle", c, rust=s[1]); continue
                 out.append(("let", s[1], s[2], s[3], self.expr(s[4]), s[5])); continue
             if s[0] in ("expr", "assign"):
                 c = self.canon(strip_paren(s[1])) if s[0] == "expr" else self.canon(s)
@@ -2461,6 +2464,10 @@ class Skeleton:
                 key, rep = self.lookup("effects", self.for_key(s))
                 if key is not None:
                     self.used.add(key); out += parse_snippet(rep, "stmts", self.fn["name"]); continue
+            if s[0] == "unsafe" and self.sk.get("unsafe_inline"):               # (task S) `unsafe { stmts }` = stmts; the raw-pointer expressions inside need table readings
+                ub = self.block(s[1])
+                if ub[1] is not None: self.lo.fail("`unsafe` block with a value")
+                out += ub[0]; continue
             if s[0] == "unsafe" and "unsafe" in self.sk.get("effects", {}):      # phase 4g: an `unsafe { .. }` block the table declares to be a pure data effect
                 self.used.add("unsafe"); out += parse_snippet(self.sk["effects"]["unsafe"], "stmts", self.fn["name"]); continue
             if s[0] == "expr" and strip_paren(s[1])[0] == "match" and self.sk.get("match_stmt"):      # phase 4g: `match` in statement / tail position
@@ -2486,11 +2493,16 @@ class Skeleton:
         """phase 4g: table entry for the canonical text `c`: the exact key, else a key with `$name` wildcards (each stands for ONE identifier - an
         ordinary local of the function, so that renaming it changes nothing); returns (key, replacement with the wildcards substituted)"""
         tab = self.sk.get(table, {})
+        if isinstance(tab, list): tab = {k: k for k in tab}
         if c is None: return None, None
         if c in tab: return c, tab[c]
         for key, rep in tab.items():
             if "$" not in key: continue
-            rx = re.sub(r"\\\$(\w+)", lambda m: "(?P<%s>[A-Za-z_][A-Za-z0-9_]*)" % m.group(1), re.escape(key))
+            seen = set()
+            def grp(m):
+                if m.group(1) in seen: return "(?P=%s)" % m.group(1)      # (task S) repeated wildcard = the same identifier again
+                seen.add(m.group(1)); return "(?P<%s>[A-Za-z_][A-Za-z0-9_]*)" % m.group(1)
+            rx = re.sub(r"\\\$(\w+)", grp, re.escape(key))
             m = re.fullmatch(rx, c)
             if m:
                 for n, v in m.groupdict().items(): rep = re.sub(r"\$" + n + r"\b", v, rep)
@@ -3849,6 +3861,10 @@ FILES += [
     ]}),
 ]
 
+
+# (task S) data skeletons of `bgv_square` / `ckks_square` (tables in tools/rs2lean_sq.py)
+from rs2lean_sq import square_tables
+TABLE_EVALCT += square_tables(EV, CSZ, PLEN, SC_OK, SC_OK_FIRST, _scale_ok)
 
 if __name__ == "__main__":
     res = gen_all(sys.argv[1])
